@@ -9,7 +9,7 @@ from vf.report import Report
 
 QUICK = [((2, 2, 4), 1.0), ((3, 2, 4), 1.0), ((2, 3, 6), 1.0), ((1, 3, 6), 1.0), ((3, 3, 6), 0.016), ((2, 4, 8), 0.03)]
 THOROUGH = [((1, 2, 4), 1.0), ((2, 2, 4), 1.0), ((3, 2, 4), 1.0), ((4, 2, 4), 1.0), ((2, 3, 6), 1.0), ((1, 3, 6), 1.0),
-            ((3, 3, 6), 0.5), ((2, 4, 8), 0.5), ((3, 4, 8), 0.016), ((4, 3, 6), 0.016), ((2, 2, 16), 1.0),
+            ((3, 3, 6), 0.2), ((2, 4, 8), 0.3), ((3, 4, 8), 0.01), ((4, 3, 6), 0.016), ((2, 2, 16), 1.0),
             ((3, 2, 8), 0.5), ((2, 3, 12), 0.125)]
 EPS = 1e-12
 _BUF = {}
